@@ -782,9 +782,11 @@ def execute_chain(job):
     base = read_counters()
     out = []
     table = {}
+    created = {}
     for step in job["steps"]:
         cur = read_counters()
-        targets = step.get("targets") or {}
+        targets = dict(step.get("targets") or {})
+        pk = json.dumps(step["program"], sort_keys=True)
         delta = {k: base[k] + int(v) - cur[k] for k, v in targets.items()}
         if step.get("exact"):
             if any(d < 0 for d in delta.values()) or any(cur[k] != base[k] for k in KINDS if k not in targets):
@@ -796,6 +798,8 @@ def execute_chain(job):
         t0 = time.time()
         try:
             outputs = with_renumbered(build_outputs(step["program"], Env(), start))
+            end = read_counters()
+            created[pk] = {k: end[k] - start[k] for k in KINDS}
             res["sigs"] = signatures(outputs)
             # structure dumps, shared between the steps of the chain (most are identical)
             res["dump"] = {nm: table.setdefault(json.dumps(d), len(table)) for nm, d in dump(outputs, bool(step.get("diag"))).items()}
@@ -804,7 +808,7 @@ def execute_chain(job):
             res.update(ok=False, error=f"{type(e).__name__}: {e}"[:300], tb=traceback.format_exc()[-800:])
         res["t"] = round(time.time() - t0, 4)
         out.append(res)
-    return {"base": base, "steps": out, "dumps": list(table)}
+    return {"base": base, "steps": out, "dumps": list(table), "created": created}
 
 
 def worker_main():
@@ -1310,6 +1314,15 @@ class Checker:
         return fp, what, rep
 
 
+def _pkey(d, erase_zero):
+    """Positional rendering of a dumped node (numbers of free indices erased)."""
+    if d[0] == "T":
+        if d[1] == "Zero" and len(d) > 3 and not erase_zero:
+            return "Zero:" + d[2]
+        return _erase_zero(d)
+    return d[1] + "(" + ",".join(_pkey(o, erase_zero) for o in d[2]) + ")"
+
+
 def classify(nm, get_b, get_v):
     """Findings for output nm between two runs; an output after renumber_indices inherits the digit
     boundary information of the operand comparison from the output before renumbering (the
@@ -1324,6 +1337,12 @@ def classify(nm, get_b, get_v):
                         f[1]["crosses"] = True
         if not finds:
             finds = pre
+    if not finds:
+        # same structure up to the index counts inside Zero terminals (e.g. after renumber_indices,
+        # whose numbers follow the traversal order): the signature hashes those counts
+        b, v = get_b(nm), get_v(nm)
+        if [_pkey(d, True) for _, d in b] == [_pkey(d, True) for _, d in v] and [_pkey(d, False) for _, d in b] != [_pkey(d, False) for _, d in v]:
+            finds = [("terminal-data", "Zero")]
     return finds or [("unclassified", None)]
 
 
@@ -1341,6 +1360,58 @@ REAL_OFFSETS = [0, 1, 7, 8, 9, 10, 95, 98, 99, 100, 998, 1000]
 def chain_standard(prog, source):
     """every counter shifted by the same value, over the whole list"""
     return [{"program": prog, "source": source, "targets": {k: v for k in KINDS}} for v in REAL_OFFSETS]
+
+
+BOUNDARIES = [10, 100, 1000, 10000]
+POSITIONS = [1, 2, -1, 3, -2, 4, 5, 6]
+
+
+def _position(p, n):
+    """Position 1..n-1 of the digit boundary inside a run of n objects (p < 0 counts from the end)."""
+    if n <= 1:
+        return 1
+    return (p - 1) % (n - 1) + 1 if p > 0 else n - 1 - ((-p - 1) % (n - 1))
+
+
+def measure(prog):
+    """How many objects of every counted class one run of the program creates (run once in the
+    checking process, whose own counters do not matter).  None: ufl rejects the program."""
+    before = read_counters()
+    try:
+        build_outputs(prog, Env(), before)
+    except MachineryError:
+        raise
+    except Exception:  # noqa: BLE001
+        return None
+    after = read_counters()
+    return {k: after[k] - before[k] for k in KINDS}
+
+
+def chain_positions(prog, source, created, base, j=0, only=None):
+    """every digit boundary B placed inside the objects the program creates: a counter whose class
+    gets n objects per run is raised to B - p (position p in 1..n-1 rotated with j), so that p
+    objects get numbers below B and the others from B on; `only` = rotate the single counter that
+    is placed (for programs sharing a process); the first step is the boundary 10 (reachable only
+    in a fresh process); a second run back to back and a run at an all-equal shift in between"""
+
+    def st(**kw):
+        return dict({"program": prog, "source": source}, **kw)
+
+    steps = []
+    between = [95, 998, 9990]
+    for b, B in enumerate(BOUNDARIES):
+        kinds = [KINDS[(only + b) % len(KINDS)]] if only is not None else KINDS
+        t = {}
+        for k in kinds:
+            if created[k] >= 1:
+                v = B - _position(POSITIONS[(j + b) % len(POSITIONS)], created[k]) - base[k]
+                if v >= 0:
+                    t[k] = v
+        steps.append(st(targets=t))
+        steps.append(st())  # once more, back to back
+        if b < len(between):
+            steps.append(st(targets={k: between[b] for k in KINDS}))
+    return steps
 
 
 def chain_single(prog, source, kind):
@@ -1682,10 +1753,10 @@ def conformance(ctx, chk, emit_jobs, transcription, base, rng, budget, deadline=
     progs = [{"kind": "script", "script": by_script[k]["script"]} for k in chosen]
     seeds = hash_seeds(ctx)
     chains = []
-    G = 10
+    G = 6
     for k in range(0, len(progs), G):
         grp = progs[k : k + G]
-        chains.append({"seed": seeds[len(chains) % len(seeds)], "steps": interleave([chain_standard(p, "tlc-emitted") + chain_phased(p, "tlc-emitted", rng, base) for p in grp])})
+        chains.append({"seed": seeds[len(chains) % len(seeds)], "steps": interleave([chain_standard(p, "tlc-emitted")[:1] + chain_positions(p, "tlc-emitted", measure(p), base, j=n, only=n) + chain_phased(p, "tlc-emitted", rng, base) for n, p in enumerate(grp)])})
     t1 = time.time()
     cases = chk.run_chains(chains[:1])  # the first group (scripts with model-predicted differences) always runs
     for k, c in chk.run_chains(chains[1:], deadline).items():
@@ -1757,27 +1828,33 @@ def interleave(lists):
 
 
 def corpus_chains(ctx, base, rng):
-    """One fresh interpreter runs the interleaved chains of a group of programs (starting an
-    interpreter costs much more than a step); chains in priority order."""
+    """Chains in priority order.  Recipes run alone in their interpreter (so that the digit
+    boundaries can be placed exactly); scripts share an interpreter in groups (starting an
+    interpreter costs much more than a step)."""
     quick = ctx.tier == "quick"
     seeds = hash_seeds(ctx)
     chains = []
 
-    def add_groups(progs, source, maker):
-        G = 8 if source == "recipe" else 12
+    def add(steps, must=False):
+        chains.append({"seed": seeds[len(chains) % len(seeds)], "steps": steps, "must": must})
+
+    def add_groups(progs, G, maker):
         for k in range(0, len(progs), G):
-            lists = [maker(p) for p in progs[k : k + G]]
-            chains.append({"seed": seeds[len(chains) % len(seeds)], "steps": interleave(lists)})
+            add(interleave([maker(p, n) for n, p in enumerate(progs[k : k + G])]))
 
     recipes = [{"kind": "recipe", "name": name} for name in RECIPES]
-    add_groups(recipes, "recipe", lambda p: chain_standard(p, "recipe"))
-    for c in chains:
-        c["must"] = True  # never dropped for lack of time
-    add_groups(recipes[::-1], "recipe", lambda p: chain_phased(p, "recipe", rng, base))
+    made = {}
+    for p in recipes:
+        made[prog_key(p)] = measure(p)
+        if made[prog_key(p)] is None:
+            raise MachineryError(f"recipe {p['name']} does not build")
+    zero_step = lambda p, src: [{"program": p, "source": src, "targets": dict(ZERO)}]  # noqa: E731
+    for p in recipes:
+        add(chain_positions(p, "recipe", made[prog_key(p)], base, j=0), must=True)
     want = 48 if quick else 600
     seen = set()
     scripts = []
-    tries = 0
+    tries = dropped = 0
     while len(scripts) < want and tries < want * 20:
         tries += 1
         sc = gen_script(rng)
@@ -1787,19 +1864,27 @@ def corpus_chains(ctx, base, rng):
         if k in seen:
             continue
         seen.add(k)
-        scripts.append({"kind": "script", "script": sc})
+        p = {"kind": "script", "script": sc}
+        made[prog_key(p)] = measure(p)
+        if made[prog_key(p)] is None:
+            dropped += 1  # ufl rejects the script (the typing of the generator is approximate)
+            continue
+        scripts.append(p)
+    ctx.cov["random_scripts_rejected_by_ufl"] = dropped
+    pos = lambda p, src, j, only: chain_positions(p, src, made[prog_key(p)], base, j=j, only=only)  # noqa: E731
     if quick:
-        add_groups(scripts[::2], "random-script", lambda p: chain_standard(p, "random-script"))
-        add_groups(scripts[1::2], "random-script", lambda p: chain_phased(p, "random-script", rng, base))
+        add_groups(recipes, 8, lambda p, n: chain_standard(p, "recipe") + chain_phased(p, "recipe", rng, base))
+        add_groups(scripts, 6, lambda p, n: zero_step(p, "random-script") + pos(p, "random-script", n, n) + chain_phased(p, "random-script", rng, base))
     else:
+        for j in range(1, 8):
+            for p in recipes:
+                add(chain_positions(p, "recipe", made[prog_key(p)], base, j=j) + chain_random(p, "recipe", rng))
+        add_groups(recipes, 8, lambda p, n: chain_standard(p, "recipe") + chain_phased(p, "recipe", rng, base))
         for k in KINDS:
-            add_groups(recipes, "recipe", lambda p, k=k: chain_single(p, "recipe", k))
-        for _ in range(2):
-            add_groups(recipes, "recipe", lambda p: chain_phased(p, "recipe", rng, base))
-            add_groups(recipes[::-1], "recipe", lambda p: chain_random(p, "recipe", rng))
-        add_groups(scripts, "random-script", lambda p: chain_standard(p, "random-script"))
-        add_groups(scripts[::-1], "random-script", lambda p: chain_phased(p, "random-script", rng, base))
-        add_groups(scripts, "random-script", lambda p: chain_single(p, "random-script", rng.choice(KINDS)) if rng.random() < 0.5 else chain_random(p, "random-script", rng))
+            add_groups(recipes, 8, lambda p, n, k=k: chain_single(p, "recipe", k))
+        add_groups(scripts, 6, lambda p, n: zero_step(p, "random-script") + pos(p, "random-script", n, n) + chain_phased(p, "random-script", rng, base))
+        add_groups(scripts[::-1], 6, lambda p, n: pos(p, "random-script", n + 3, n + 2) + chain_random(p, "random-script", rng))
+        add_groups(scripts, 12, lambda p, n: chain_standard(p, "random-script"))
     return chains
 
 
@@ -1871,7 +1956,7 @@ def run(ctx, args):
     ctx.cov["import_time_counters"] = base
     intended, emit, coded, transcription = plan_models(ctx)
     rng = random.Random(1000003 * ctx.seed + (1 if quick else 2))
-    ex = ThreadPoolExecutor(max_workers=3)
+    ex = ThreadPoolExecutor(max_workers=3 if quick else 2)  # quick: 3 TLC x 2 workers, thorough: 2 TLC x 4 workers
     try:
         order = emit + coded + intended
         futs = {id(j): ex.submit(j.run, base) for j in order}
